@@ -29,7 +29,11 @@ void h_result_error(void) {
     int tl = nondet_int(), i; __CPROVER_assume(tl >= 0 && tl <= TXT);
     for (i = 0; i < tl; i++) text[i] = nondet_bool() ? '"' : 'a';
     text[tl] = 0;
+#ifdef CODESEL
+    int sel = CODESEL;
+#else
     int sel = nondet_int(); __CPROVER_assume(sel >= 0 && sel <= 2);
+#endif
     scpi_error_t e; e.error_code = sel == 0 ? 0 : sel == 1 ? 1234 : -350; e.device_dependent_info = nondet_bool() ? text : NULL;
     const char *desc = sel == 0 ? "No error" : sel == 1 ? "Unknown error" : "Queue overflow";
     itf.write = cap_write; ctx.interface = &itf; ctx.output_count = 0;
